@@ -154,7 +154,8 @@ for k, t, cap in ((2, "quick", 600), (3, "quick", 900), (4, "quick", 900), (5, "
                  "against every fault script of %d events, then one call: no 'service not ready' panic; eager+never-connected reports the "
                  "first connect failure from poll_ready; otherwise a failure is parked, handed to exactly one call (with the id of the "
                  "failed attempt) and cleared; no new attempt while an error is undelivered; a completed connect future is never polled "
-                 "again; connector ready + connect ok + connection ready => the call reaches the connection" % k,
+                 "again; connector ready + connect ok + connection ready => the call reaches the connection; has_been_connected never "
+                 "reverts (so only the initial failure of an eager channel can come out of poll_ready)" % k,
       functions=["Reconnect::poll_ready", "Reconnect::call", "reconnect::ResponseFuture::poll"],
       bounds="all scripts of %d events over {connector ready/pending, connect ok/pending/fail, connection ready/pending/dropped}; "
              "poll_ready loop bound %d (checked by unwinding assertion)" % (k, 2 * k + 4),
